@@ -86,7 +86,10 @@ def _run(ix, R):
             fl = mkflow(ix, site)
             pe = param_env(fl, f, ['x']) if len(f.params()) > 1 else {}
             r = the_return(fl)
-            R.check('1.%s.%s' % (cls, fn), 'ALG', site, stmt, fl.tab.equal(r.value, spec(fl, want, pe)) and not r.guards,
+            # uniform and norm have no shape parameters: ppf(q, loc, scale) positionally is the keyword call
+            wants = [want, want.replace('loc=', '').replace('scale=', '')]
+            R.check('1.%s.%s' % (cls, fn), 'ALG', site, stmt,
+                    any(fl.tab.equal(r.value, spec(fl, w_, pe)) for w_ in wants) and not r.guards,
                     key='returns %s' % fmt(fl, r.value), detail='returns %s' % fmt(fl, r.value), loc=f.loc(r.node))
     site = PR + '::Gaussian.__init__'
     with R.guard('1.gauss.init', 'ALG', site, 'gaussian parameters'):
